@@ -969,7 +969,14 @@ fn first_diff(sv: &[(Id, [Option<u32>; NC])], mv: &[(Id, [Option<u32>; NC])]) ->
 // C13 structural audit
 
 pub fn audit(d: &brood::verif::Dump, m: &Model, chk: &mut Checker, k: &str, which: &str) {
-    let mut bad = |key: &str, detail: String| chk.fail(Prop::C13, &format!("{} op={}", key, k), format!("[{}] {}", which, detail));
+    let mut bad = |key: &str, detail: String| {
+        // a pointer kept to memory this world does not own is also a memory-safety defect (C05): the next lookup
+        // compares / dereferences it
+        if matches!(key, "typeid-lookup-dangling" | "bytes-lookup-dangling" | "slot-points-outside-world" | "bytes-lookup-key-foreign") {
+            chk.fail(Prop::C05, &format!("dangling-pointer-kept ({}) op={}", key, k), format!("[{}] {}", which, detail));
+        }
+        chk.fail(Prop::C13, &format!("{} op={}", key, k), format!("[{}] {}", which, detail))
+    };
     let nbytes = (NC + 7) / 8;
     let mut by_addr: BTreeMap<usize, usize> = BTreeMap::new();
     let mut seen_bytes: BTreeSet<Vec<u8>> = BTreeSet::new();
@@ -1362,6 +1369,11 @@ pub fn alphabet(name: &str) -> Vec<Op> {
 /// Representative histories of every state reachable within `depth` operations (canonical-state
 /// de-duplication, breadth first, lexicographically smallest history per state).  Must be called on a
 /// thread with an arena; runs one arena epoch per transition.
+thread_local! {
+    /// first panic met while enumerating states (a misbehaviour of the library under plain operations)
+    pub static ENUM_FAILURE: std::cell::RefCell<Option<String>> = const { std::cell::RefCell::new(None) };
+}
+
 pub fn enumerate_states(ops: &[Op], depth: usize) -> Vec<Vec<u8>> {
     let mut seen = std::collections::HashSet::new();
     let mut out: Vec<Vec<u8>> = vec![vec![]];
@@ -1374,8 +1386,8 @@ pub fn enumerate_states(ops: &[Op], depth: usize) -> Vec<Vec<u8>> {
                 h2.push(oi);
                 arena::begin(0);
                 comp::ledger_begin();
-                let key = {
-                    let mut ex = Exec::new();
+                let r = std::panic::catch_unwind(std::panic::AssertUnwindSafe(|| {
+                    let mut ex = std::mem::ManuallyDrop::new(Exec::new());
                     let mut chk = Checker::default();
                     let mut ok = true;
                     for &o in &h2 {
@@ -1384,10 +1396,25 @@ pub fn enumerate_states(ops: &[Op], depth: usize) -> Vec<Vec<u8>> {
                             break;
                         }
                     }
-                    if ok { Some(crate::util::hash128(&ex.canon())) } else { None }
-                };
+                    let k = if ok { Some(crate::util::hash128(&ex.canon())) } else { None };
+                    drop(std::mem::ManuallyDrop::into_inner(ex));
+                    k
+                }));
                 drop(comp::ledger_end());
                 let _ = arena::end();
+                let key = match r {
+                    Ok(k) => k,
+                    Err(_) => {
+                        // a plain operation sequence made the library panic: remembered, reported by the caller
+                        let msg = crate::util::take_last_panic();
+                        ENUM_FAILURE.with(|f| {
+                            if f.borrow().is_none() {
+                                *f.borrow_mut() = Some(format!("history {:?} panicked: {}", h2.iter().map(|&o| format!("{:?}", ops[o as usize])).collect::<Vec<_>>(), msg));
+                            }
+                        });
+                        None
+                    }
+                };
                 if let Some(k) = key {
                     if seen.insert(k) {
                         next.push(h2.clone());
